@@ -58,6 +58,9 @@ def form_lines(st):
         return _L("S.emit('%s')" % p[0])
     if f == 'say':
         return _L("S.say('%s', '%s')" % (st.get('text', 'ok'), p[0]))
+    if f == 'usestd':
+        # what the name of a standard library module means to this doctest
+        return _L("S.say(str(hasattr(__import__('colorsys'), 'rgb_to_hls')), '%s')" % p[0])
     if f == 'loopval':
         # a compound statement with a bare expression in its body, the same text wherever it
         # appears: echoed in REPL mode ('...' continuation), silent otherwise
@@ -251,6 +254,8 @@ def form_out(st):
         return [tok(p[0]) + '\n']
     if f == 'say':
         return [st.get('text', 'ok') + '\n']
+    if f == 'usestd':
+        return ['True\n']
     if f == 'emitnoeol':
         return [tok(p[0])]
     if f == 'emitcr':
@@ -274,7 +279,7 @@ def form_out(st):
     return []
 
 
-EXPR_FORMS = {'expr', 'zcall', 'print', 'emit', 'emitnoeol', 'emitcr', 'keepglobal', 'writekept', 'coroexpr', 'reprexpr', 'sayval', 'modsay', 'say', 'multiline', 'semiemit', 'tqprint', 'callhelper_expr', 'callhelper_emit',
+EXPR_FORMS = {'expr', 'zcall', 'usestd', 'print', 'emit', 'emitnoeol', 'emitcr', 'keepglobal', 'writekept', 'coroexpr', 'reprexpr', 'sayval', 'modsay', 'say', 'multiline', 'semiemit', 'tqprint', 'callhelper_expr', 'callhelper_emit',
               'callmod_expr', 'awaitexpr', 'awaitprint', 'names', 'emitop'}
 VALUE_FORMS = {'expr': 0, 'multiline': 0, 'callhelper_expr': 0, 'callmod_expr': 0, 'awaitexpr': 0, 'emitop': 0, 'reprexpr': 0}
 NOCODE_FORMS = {'comment', 'directive', 'blankprompt'}
